@@ -113,11 +113,14 @@ def _revert_instances(tier):
 def solver_requires(solve_triu):
     """The contracts of ``revert_conditional`` / ``*.revert`` are proved for the two solvers the repository passes:
     the upper-triangular solve and the (minimum-norm) least-squares solve.  At a call site the solver argument has to
-    be one of them -- a lower-triangular solve, say, would read only the diagonal of the upper-triangular factor."""
-    import probdiffeq.backend.linalg as LA
-
-    ok = any(solve_triu is f for f in (LA.solve_triu, LA.lstsq_svd))
-    return [H.holds("solver_argument_is_the_upper_triangular_or_the_least_squares_solve", jnp.asarray(bool(ok)))]
+    behave like one of them: on a fixed non-singular upper-triangular probe it returns the solution of the system
+    (stated through the normal equations, which both satisfy) -- a lower-triangular solve, which reads only the
+    diagonal of the factor, does not.  Decided by what the argument computes, not by its identity, so a wrapper
+    (lambda, partial) around an admissible solver is admissible."""
+    R = jnp.asarray([[2.0, 1.0], [0.0, 3.0]])
+    B = jnp.asarray([[1.0, -1.0], [1.0, 2.0]])
+    X = solve_triu(R, B)
+    return [eq("static:solver_argument_solves_upper_triangular_systems(2x2 probe)", R.T @ R @ X, R.T @ B)]
 
 
 revert_conditional = Contract(
